@@ -137,6 +137,7 @@ def r83_runtime_type(root):
                 raise X.ExtractError('R83: RUNTIME_TYPE used other than as `*RUNTIME_TYPE`')
             return body
         rt = open('%s/src/common/async_runtime.rs' % root).read()
+        rt = re.sub(r'//[^\n]*', '', rt)        # comments do not matter for the declaration check
         if not re.search(r'lazy_static!\s*\{\s*pub\(crate\)\s+static\s+ref\s+RUNTIME_TYPE\s*:\s*RuntimeType\s*=\s*RuntimeType::new\(\)\s*;\s*\}', rt):
             raise X.ExtractError('R83: `static ref RUNTIME_TYPE: RuntimeType = RuntimeType::new();` not found in src/common/async_runtime.rs')
         for m in reversed(hits):
